@@ -601,7 +601,7 @@ func (w *vWorld) observe(idx int, raw json.RawMessage, op, s string, crashed boo
 	o["api"] = api
 	mem := map[string]vObsMem{}
 	for k, al := range allocator.VerifSnapshot(w.c.ips) {
-		e := vObsMem{Pool: al.Pool, Ips: kit.AbsList(al.IPs), Sk: al.Sharing, Bk: strings.TrimPrefix(al.Backend, "app="), Ports: []string{}}
+		e := vObsMem{Pool: al.Pool, Ips: kit.AbsList(al.IPs), Sk: al.Sharing, Bk: strings.Replace(al.Backend, "app=", "", 1), Ports: []string{}}
 		for _, p := range al.Ports {
 			e.Ports = append(e.Ports, kit.PortName(p.Proto, p.Port))
 		}
